@@ -51,6 +51,11 @@ def build_modules(modules: list[str]) -> tuple[bool, str]:
     return rc == 0, out
 
 
+def run_leanchecker(modules: list[str]) -> tuple[int, str]:
+    with BuildLock():
+        return _run(["lake", "env", "leanchecker"] + modules, timeout=1500)
+
+
 def strip_comments(src: str) -> str:
     # remove nested /- -/ block comments and -- line comments (string literals containing these are not used here)
     out = []
